@@ -64,7 +64,8 @@ func ParseRequest(json_body []byte, qid uint64, isJaegerQuery bool, scrollTimeou
 	var scrollRecord *Scroll
 	var scroll_id string
 
-	for key, value := range results {
+	for _, key := range sortedJSONKeys(results) {
+		value := results[key]
 		switch valtype := value.(type) {
 		case map[string]interface{}:
 			if key == "query" {
@@ -168,7 +169,8 @@ func ParseOpenDistroRequest(json_body []byte, qid uint64, isJaegerQuery bool, sc
 	var scrollRecord *Scroll
 	var scroll_id string
 
-	for key, value := range results {
+	for _, key := range sortedJSONKeys(results) {
+		value := results[key]
 		switch valtype := value.(type) {
 		case map[string]interface{}:
 			if key == "query" {
@@ -496,7 +498,8 @@ func processTermsHistogram(params interface{}, qid uint64, aggNode *QueryAggrega
 	switch t := params.(type) {
 	case map[string]interface{}:
 		// remove .raw from column names
-		for k, v := range t {
+		for _, k := range sortedJSONKeys(t) {
+			v := t[k]
 			if strings.HasSuffix(k, ".raw") {
 				t[strings.TrimSuffix(k, ".raw")] = v
 				delete(t, k)
@@ -669,7 +672,8 @@ func parseQuery(json_body interface{}, qid uint64, isJaegerQuery bool) (*ASTNode
 	// var err error
 	switch t := json_body.(type) {
 	case map[string]interface{}:
-		for key, value := range t {
+		for _, key := range sortedJSONKeys(t) {
+			value := t[key]
 			//		leafNode := &ASTNode{}
 			switch value.(type) {
 			case map[string]interface{}:
@@ -742,7 +746,8 @@ func parseBool(json_body interface{}, qid uint64, isJaegerQuery bool) (*ASTNode,
 	boolNode.TimeRange = rutils.GetESDefaultQueryTimeRange()
 	switch t := json_body.(type) {
 	case map[string]interface{}:
-		for key, value := range t {
+		for _, key := range sortedJSONKeys(t) {
+			value := t[key]
 			key = strings.TrimSuffix(key, ".raw") // remove any .raw postfix from column name
 			switch key {
 			case "must", "filter":
@@ -874,7 +879,8 @@ func parseMustOrFilter(json_body interface{}, boolNode *ASTNode, qid uint64, isJ
 	var currCondition *Condition
 	switch t := json_body.(type) {
 	case map[string]interface{}:
-		for key, value := range t {
+		for _, key := range sortedJSONKeys(t) {
+			value := t[key]
 			if value == nil {
 				err := fmt.Errorf("parseMustOrFilter: Error parsing Filter query")
 				return nil, err
@@ -897,7 +903,8 @@ func parseMustOrFilter(json_body interface{}, boolNode *ASTNode, qid uint64, isJ
 		for _, nvalue := range json_body.([]interface{}) {
 			switch t := nvalue.(type) {
 			case map[string]interface{}:
-				for key, value := range t {
+				for _, key := range sortedJSONKeys(t) {
+					value := t[key]
 					filtercond, err := parseLeafNodes(key, value, boolNode, qid, isJaegerQuery)
 					if err != nil {
 						return nil, err
@@ -987,7 +994,8 @@ func parseNestedDictArray(json_body interface{}, qid uint64, path string) (strin
 				for _, nv := range nestedValue {
 					switch qv := nv.(type) {
 					case map[string]interface{}:
-						for k, v := range qv {
+						for _, k := range sortedJSONKeys(qv) {
+							v := qv[k]
 							switch v := v.(type) {
 							case map[string]interface{}:
 								if k == "match" {
@@ -1071,7 +1079,8 @@ func parseShould(json_body interface{}, boolNode *ASTNode, qid uint64, isJaegerR
 	var currCondition *Condition
 	switch t := json_body.(type) {
 	case map[string]interface{}:
-		for key, value := range t {
+		for _, key := range sortedJSONKeys(t) {
+			value := t[key]
 			if value == nil {
 				err := fmt.Errorf("parseShould: Error parsing Filter query")
 				return nil, err
@@ -1093,7 +1102,8 @@ func parseShould(json_body interface{}, boolNode *ASTNode, qid uint64, isJaegerR
 		for _, nvalue := range json_body.([]interface{}) {
 			switch t := nvalue.(type) {
 			case map[string]interface{}:
-				for key, value := range t {
+				for _, key := range sortedJSONKeys(t) {
+					value := t[key]
 					filtercond, err := parseLeafNodes(key, value, boolNode, qid, isJaegerReq)
 					if err != nil {
 						return nil, err
@@ -1135,7 +1145,8 @@ func parseMustNot(json_body interface{}, boolNode *ASTNode, qid uint64, isJaeger
 	var currCondition *Condition
 	switch t := json_body.(type) {
 	case map[string]interface{}:
-		for key, value := range t {
+		for _, key := range sortedJSONKeys(t) {
+			value := t[key]
 			if value == nil {
 				err := fmt.Errorf("parseMustNot: Error parsing Filter query")
 				return nil, err
@@ -1157,7 +1168,8 @@ func parseMustNot(json_body interface{}, boolNode *ASTNode, qid uint64, isJaeger
 		for _, nvalue := range json_body.([]interface{}) {
 			switch t := nvalue.(type) {
 			case map[string]interface{}:
-				for key, value := range t {
+				for _, key := range sortedJSONKeys(t) {
+					value := t[key]
 					filtercond, err := parseLeafNodes(key, value, boolNode, qid, isJaegerQuery)
 					if err != nil {
 						return nil, err
@@ -1571,7 +1583,8 @@ func parseTerm(json_body interface{}, qid uint64) ([]*FilterCriteria, error) {
 	}
 	switch t := json_body.(type) {
 	case map[string]interface{}:
-		for key, value := range t {
+		for _, key := range sortedJSONKeys(t) {
+			value := t[key]
 			key = strings.TrimSuffix(key, ".raw") // remove any .raw postfix from column name
 			andFilterCondition := make([]*FilterCriteria, 0)
 			switch innerTerm := value.(type) {
@@ -1642,7 +1655,8 @@ func parseRange(json_body interface{}, qid uint64, isJaegerQuery bool) ([]*Filte
 	}
 	switch t := json_body.(type) {
 	case map[string]interface{}:
-		for key, value := range t {
+		for _, key := range sortedJSONKeys(t) {
+			value := t[key]
 			key = strings.TrimSuffix(key, ".raw") // remove any .raw postfix from column name
 			andFilterCondition := make([]*FilterCriteria, 0)
 			switch t := value.(type) {
@@ -1769,7 +1783,8 @@ func parseMatch(json_body interface{}, qid uint64) ([]*FilterCriteria, error) {
 	var colValue interface{}
 	switch t := json_body.(type) {
 	case map[string]interface{}:
-		for key, value := range t {
+		for _, key := range sortedJSONKeys(t) {
+			value := t[key]
 			key = strings.TrimSuffix(key, ".raw") // remove any .raw postfix from column name
 			switch t := value.(type) {
 			case string:
@@ -1836,7 +1851,8 @@ func parseMatchPhrase(json_body interface{}, qid uint64) (*ASTNode, error) {
 	var colValue interface{}
 	switch t := json_body.(type) {
 	case map[string]interface{}:
-		for key, value := range t {
+		for _, key := range sortedJSONKeys(t) {
+			value := t[key]
 			switch value.(type) {
 			case string:
 				colValue = value
@@ -1872,7 +1888,8 @@ func parseMatchPhrase_nested(json_body interface{}, qid uint64) ([]*FilterCriter
 	var colValue interface{}
 	switch t := json_body.(type) {
 	case map[string]interface{}:
-		for key, value := range t {
+		for _, key := range sortedJSONKeys(t) {
+			value := t[key]
 			switch value.(type) {
 			case string:
 				colValue = value
@@ -2068,7 +2085,8 @@ func parseTerms(json_body interface{}, qid uint64) ([]*FilterCriteria, error) {
 	var opr = Or
 	switch t := json_body.(type) {
 	case map[string]interface{}:
-		for key, value := range t {
+		for _, key := range sortedJSONKeys(t) {
+			value := t[key]
 			key = strings.TrimSuffix(key, ".raw") // remove any .raw postfix from column name
 			switch valtype := value.(type) {
 			case []interface{}:
@@ -2107,7 +2125,8 @@ func parsePrefix(json_body interface{}, qid uint64) ([]*FilterCriteria, error) {
 	andFilterCondition := make([]*FilterCriteria, 0)
 	switch t := json_body.(type) {
 	case map[string]interface{}:
-		for key, value := range t {
+		for _, key := range sortedJSONKeys(t) {
+			value := t[key]
 			key = strings.TrimSuffix(key, ".raw") // remove any .raw postfix from column name
 			switch nt := value.(type) {
 
@@ -2163,7 +2182,8 @@ func parseRegexp(json_body interface{}, qid uint64) ([]*FilterCriteria, error) {
 
 	switch t := json_body.(type) {
 	case map[string]interface{}:
-		for key, value := range t {
+		for _, key := range sortedJSONKeys(t) {
+			value := t[key]
 			key = strings.TrimSuffix(key, ".raw") // remove any .raw postfix from column name
 			andFilterCondition := make([]*FilterCriteria, 0)
 
@@ -2213,7 +2233,8 @@ func parseWildcard(json_body interface{}, qid uint64) ([]*FilterCriteria, error)
 
 	switch t := json_body.(type) {
 	case map[string]interface{}:
-		for key, value := range t {
+		for _, key := range sortedJSONKeys(t) {
+			value := t[key]
 			key = strings.TrimSuffix(key, ".raw") // remove any .raw postfix from column name
 			andFilterCondition := make([]*FilterCriteria, 0)
 
@@ -2462,4 +2483,16 @@ func createMultiMatchFilterCriteria(matchFields []string, colValue interface{}, 
 	return &Condition{
 		FilterCriteria: []*FilterCriteria(filterCondition),
 	}
+}
+
+// sortedJSONKeys returns the keys of a decoded JSON object in sorted order. The parser walks request
+// objects key by key and several walks stop at the first key they can handle, so with Go's random map
+// order the same request body could be accepted on one call and rejected on the next.
+func sortedJSONKeys(m map[string]interface{}) []string {
+	keys := make([]string, 0, len(m))
+	for k := range m {
+		keys = append(keys, k)
+	}
+	sort.Strings(keys)
+	return keys
 }
